@@ -2,6 +2,7 @@ package checks
 
 import (
 	"fmt"
+	"sort"
 	"strings"
 
 	"verif/mc/bind"
@@ -432,6 +433,29 @@ func enumRaw(x *core.Ctx, maxBody int, fn func(c *rawCase) bool) {
 	}
 	if !corpus() {
 		return
+	}
+	// F9: one byte with a meaning of its own (first byte, connect flags,
+	// acknowledge flags, reason codes, subscription options, PUBLISH flags)
+	// through all 256 values inside otherwise well-formed frames
+	if x.Mine() {
+		fams := c19ByteFrames()
+		var names []string
+		for n := range fams {
+			names = append(names, n)
+		}
+		sort.Strings(names)
+		for _, n := range names {
+			for _, m := range fams[n] {
+				if !call("F9.byte-256."+n, m, -1) {
+					return
+				}
+				if len(m) > 2 && m[1] < 0x80 {
+					if !call("F9.byte-256.direct."+n, m[2:], int(m[0]>>4)) {
+						return
+					}
+				}
+			}
+		}
 	}
 	// F8: dense strata
 	enumDenseFrames(x, fn)
